@@ -1,5 +1,5 @@
 """Texts for MANIFEST.json (kept apart from the run configuration)."""
-HOOK_COMMITS = []
+HOOK_COMMITS = ["ded7f21", "6737bff", "56d5772"]
 NOTES = ("All checks are property-based tests / fuzzers (rapid v1.3.0 + native go fuzzing). Genuine defects found on the pinned tree are "
          "either repaired by 'fix:' commits in /repo or listed in /verif/known_findings.txt; see DESIGN.md.")
 NOT_APPLICABLE = {}
@@ -74,5 +74,12 @@ CLAIMED = {
         text=("Generated sequences of View/Slice/Set/Grow/Truncate/Len/Bytes (direct and through the blob.* helpers) over a pool of aliasing blobs, with arguments across and beyond the valid range; after every step every live blob is compared "
               "with a Go-slice model in which views alias and slices/Bytes are copies; out-of-range calls must not panic or modify anything; every call runs under a watchdog (self-aliasing Set). Runs natively (blob.Bytes) and in node (blob.Bytes, idbblob.Blob). Sampled exploration."),
         note="aliasing across any Grow/Truncate call is not asserted; Set whose source overflows the destination is not generated (implementations legitimately differ); out-of-range errors are required only from the byte-slice implementation",
+    ),
+    "C18": dict(
+        technique="model-based property testing with rapid against a map model (both transaction implementations); harness-owned interleaving of concurrent transactions by parking them inside handlers; crash tracing for unrecoverable runtime errors",
+        text=("Generated call sequences (Get/GetHandler/Set/SetHandler with succeeding, failing and aborting handlers, Commit/Abort) on the real in-memory transactions (via the verif hook) and on the serial fallback are checked against a map model: "
+              "one result per call in order with matching unique ids, read-your-writes across transactions, handler errors, no effect after abort, store released and equal to the model afterwards. An isolation leg parks 2-6 concurrent transactions "
+              "inside handlers and checks that never two are inside and nothing is torn. Sampled exploration; the isolation schedule is owned only at handler granularity."),
+        note="a test-binary death (fatal error such as a double unlock) is reported as a violation with the traced history; Commit's return value for an aborted transaction is not asserted",
     ),
 }
